@@ -45,9 +45,9 @@ func witnesses() []WitnessCase {
 		{ID: fNullItem, Scen: &ScenCase{Kind: "http", Syntax: "yaml", Passes: 1, Origin: "witness",
 			Text: []byte("requests:\n  - name: r\n    method: GET\n    uri: /x\n    postprocessors:\n      -\nscenarios:\n  - name: s\n    requests: [r]\n")}},
 		{ID: fHugeStepCount, Scen: &ScenCase{Kind: "http", Syntax: "yaml", Passes: 1, Origin: "witness",
-			Text: []byte(scenReq + "scenarios:\n  - name: s\n    requests: [\"r(3000000)\"]\n")}},
+			Text: []byte(scenReq + "scenarios:\n  - name: s\n    requests: [\"r(1000000)\"]\n")}},
 		{ID: fHugeWeight, Scen: &ScenCase{Kind: "http", Syntax: "yaml", Passes: 1, Origin: "witness",
-			Text: []byte(scenReq + "scenarios:\n  - name: a\n    weight: 100000000\n    requests: [r]\n  - name: b\n    weight: 1\n    requests: [r]\n")}},
+			Text: []byte(scenReq + "scenarios:\n  - name: a\n    weight: 70000000\n    requests: [r]\n  - name: b\n    weight: 1\n    requests: [r]\n")}},
 		{ID: fGrpcEmptySpin, Ammo: &AmmoCase{Format: fmtGRPC, Mode: "bytes", Origin: "witness", Data: []byte(""), Limit: 5, Passes: 0}},
 		{ID: fRawLastLine, Ammo: &AmmoCase{Format: "raw", Mode: "meta", Origin: "meta", Valid: &rawV, Garbage: "abc", MustReject: true, Passes: 1,
 			Data: append(rawV.Render(), "abc"...)}},
